@@ -254,7 +254,7 @@ let eval (dbg : bool) (be : bool) (ops : op list) : string =
     let tunits = List.map (fun (u : ust) ->
       let params =
         if u.written then
-          { UnitWr.up_lp_none = true; up_lp_nonempty = false; up_lp_write = Res.Ok BinNums.N0;
+          { UnitWr.up_lp_none = true; up_lp_nonempty = false; up_lp_version = n_of_int 2; up_lp_write = Res.Ok BinNums.N0;
             up_rng = Res.Ok []; up_loc = Res.Ok [] }
         else begin
           let (rr, rl') = range_offsets u.enc u.rngs !rl in
@@ -266,7 +266,9 @@ let eval (dbg : bool) (be : bool) (ops : op list) : string =
             | Some ((lv, _, la), _) ->
                 if (uv < 5 && lv >= 5) || ua <> la then Res.Err Res.WIncompatibleLineProgramEncoding
                 else Res.Ok BinNums.N0 in
-          { UnitWr.up_lp_none = (u.lp = None); up_lp_nonempty = false; up_lp_write = lpw;
+          { UnitWr.up_lp_none = (u.lp = None); up_lp_nonempty = false;
+            up_lp_version = n_of_int (match u.lp with None -> 2 | Some ((lv, _, _), _) -> lv);   (* LineProgram::none() is version 2 *)
+            up_lp_write = lpw;
             up_rng = rr; up_loc = lr }
         end in
       { UnitWr.tu_unit = u.wu; tu_params = params; tu_written = u.written;
@@ -331,16 +333,9 @@ let eval (dbg : bool) (be : bool) (ops : op list) : string =
       (hex_of_bytes (UnitWr.strtab_write !strs)) (hex_of_bytes (UnitWr.strtab_write !lstrs))
   with Stop s -> s
 
-(* ---------------------------------------------------------------- sharding (evaluate only our share) *)
-let shard_info = lazy (
-  match Array.to_list Sys.argv with
-  | _ :: "gen" :: _ :: _ :: _ :: a :: b :: _ -> (int_of_string a, int_of_string b)
-  | _ -> (0, 1))
+(* Streams.both is lazy/shard-aware: the model is evaluated only for this process's share *)
+let both_sharded = both
 let counter = ref 0
-let both_sharded (emit : emit) case (f : bool -> string) =
-  let (s, ns) = Lazy.force shard_info in
-  (if !counter mod ns = s then emit case (f true) (f false) else emit case "" "");
-  incr counter
 
 (* ---------------------------------------------------------------- generators *)
 let p2 k = Z.shift_left Z.one k
@@ -575,8 +570,8 @@ let gen_script r ~multi_lp ~(mode : int) : op list =
           push (Xc (u, List.nth added.(u) (rand_int r (List.length added.(u))), c))
         end
       end;
-      (* an id that was reserved and never added must still index into the entries vector *)
-      if pending.(u) <> [] then (push (E (u, 0, pick r tags)); added.(u) <- nent.(u) :: added.(u); nent.(u) <- nent.(u) + 1)) group) groups;
+      (* an id that was reserved and never added may lie beyond the entries vector: Err(InvalidReference) when referenced *)
+      if pending.(u) <> [] && rand_bool r then (push (E (u, 0, pick r tags)); added.(u) <- nent.(u) :: added.(u); nent.(u) <- nent.(u) + 1)) group) groups;
   List.rev !ops
 
 (* directed family: one attribute of kind k on entry 1, followed by a referenced entry 2 *)
@@ -644,7 +639,7 @@ let () =
         let ops = gen_script r ~multi_lp:true ~mode in
         emit (Printf.sprintf "c11.sem %s %d %s" (sb be) mode (s_script ops)) "ok" "ok"
       done);
-  register "c11.misuse" ~doc:"references that cannot be encoded (an id that was reserved but never added and lies beyond the entries vector; an entry id issued by another unit): the property demands Err"
+  register "c11.misuse" ~doc:"references that cannot be encoded (an id that was reserved but never added and lies beyond the entries vector — Err since c42c00d; an entry id issued by another unit — known finding): the property demands Err"
     (fun ~seed ~n emit ->
       counter := 0;
       let r = mk_rng (seed + 104729) in
@@ -672,7 +667,10 @@ let () =
               [ Note "foreign"; U (e0, None); U (e1, None) ] @ List.init k0 (fun _ -> E (0, 0, pick r tags))
               @ List.init k1 (fun _ -> E (1, 0, pick r tags))
               @ [ Set (1, 1, 0x31, Ir (0, 1, 1 + rand_int r k1)) ] in
-        emit (Printf.sprintf "c11.misuse %s 0 %s" (sb be) (s_script ops)) spec spec
+        let case = Printf.sprintf "c11.misuse %s 0 %s" (sb be) (s_script ops) in
+        (match ops with
+         | Note "dangling" :: _ -> both emit case (fun dbg -> eval dbg be ops)   (* the model answers err InvalidReference *)
+         | _ -> emit case spec spec)
       done);
   register "c11.form" ~doc:"AttributeValue::form for every variant x version {0..6,65535} x format x address size"
     (fun ~seed ~n:_ emit ->
